@@ -513,6 +513,11 @@ def run(tier, seed):
                   ("explore", 4, True, False, "dupvec", 1), ("explore", 3, False, False, "dupvec", 2), ("explore", 3, True, False, "iterator", 1), ("explore", 1, False, False, "iterator", 1),
                   ("explore", 3, True, False, "abort", 1), ("explore", 4, True, False, "abort", 0), ("explore", 2, True, False, "serialise", 2), ("explore", 3, True, False, "serialise", 1),
                   ("explore", 2, False, False, "nppoints", 2), ("explore", 3, True, False, "nppoints", 1)]
+    # other worker counts (three and four workers, more workers than designs); the model executor starts no more workers than
+    # there are tasks. Larger worker counts are not explored: the order in which idle workers start is a free choice and the
+    # number of start orders grows factorially.
+    shards += [("explore", 3, True, False, "procs3", 1), ("explore", 4, False, False, "procs3", 1), ("explore", 2, True, False, "procs8", 1),
+               ("explore", 5, False, False, "procs4", 1), ("explore", 4, True, False, "procs4", 0)]
     gb = 3 if tier == "thorough" else 2
     shards += [("gradient", 1, False, gb), ("gradient", 1, True, gb), ("gradient", 2, False, gb - 1), ("gradient", 2, True, gb - 1)]
     split = []
@@ -531,4 +536,4 @@ def run(tier, seed):
 
 RULE += (' Beyond small: 9..129 tasks at the default schedule (9 and 17 also with pre-emptions), batches that are not recorded in problem.individuals, batches mixing individual classes, 33..257 (thorough 1025) tasks through real joblib.')
 
-RULE += (" Variants of the batch (same schedules, bound 0-2): designs at repeated points, a one-shot iterator handed to the evaluator, a last design that fails permanently (the call raises after five attempts, what was evaluated stays stored), custom data whose serialisation is a scheduling point, scheduling points after every numpy call of artap.individual, the gradient evaluator (designs and their finite-difference children in one batch, with and without a transient failure of the first design). The model executor follows joblib's contract for `timeout` (a slow task raises TimeoutError in the caller) and `require` (without 'sharedmem' an outer process-based context may run the tasks on pickled copies). Two workers throughout.")
+RULE += (" Variants of the batch (same schedules, bound 0-2): designs at repeated points, a one-shot iterator handed to the evaluator, a last design that fails permanently (the call raises after five attempts, what was evaluated stays stored), custom data whose serialisation is a scheduling point, scheduling points after every numpy call of artap.individual, the gradient evaluator (designs and their finite-difference children in one batch, with and without a transient failure of the first design). The model executor follows joblib's contract for `timeout` (a slow task raises TimeoutError in the caller) and `require` (without 'sharedmem' an outer process-based context may run the tasks on pickled copies). Two workers, and three / four workers (also more workers than designs) with <=1 pre-emption.")
